@@ -211,33 +211,32 @@ func newWorld(ballast int, localSKI string) *world {
 }
 
 func (w *world) close() {
+	// every dial still in flight is brought to its end before the listeners are released:
+	// a late retry of an abandoned attempt could otherwise reach a port that the kernel has
+	// meanwhile given to another sequence's listener (a stray accept there)
 	for i := 0; i < c10NSki; i++ {
-		w.lis[i].Close()
 		for _, f := range w.inflight[i] {
 			f.conn.Close()
+			select {
+			case c := <-w.acc[i]:
+				c.Close()
+			case <-time.After(8 * time.Second):
+			}
+			if f.done != nil {
+				select {
+				case <-f.done:
+				case <-time.After(8 * time.Second):
+				}
+			}
 		}
+		w.inflight[i] = nil
+	}
+	for i := 0; i < c10NSki; i++ {
+		w.lis[i].Close()
 	}
 	for _, s := range w.srv {
 		s.Close()
 	}
-	// connections accepted after the sequence ended (second Dial of an abandoned attempt)
-	go func() {
-		t := time.After(8 * time.Second)
-		for {
-			for i := 0; i < c10NSki; i++ {
-				select {
-				case c := <-w.acc[i]:
-					c.Close()
-				default:
-				}
-			}
-			select {
-			case <-t:
-				return
-			case <-time.After(50 * time.Millisecond):
-			}
-		}
-	}()
 }
 
 func (w *world) entry(k int) *api.MdnsEntry {
